@@ -50,8 +50,12 @@ FORK_KINDS = set(GS.FORK_KINDS)
 FUNC_END = {'fblk', 'frkl', 'frkf'}      # branch kinds whose last operation is a functional op
 
 
+class _NoGraph:
+    nodes = ()
+
+
 def cases(tier, seed):
-    progs = GS.gen(tier) + GS.gen_fork(tier)
+    progs = GS.gen(tier) + GS.gen_fork(tier) + GS.gen_inplace(tier)
     out = [{'prog': p, 'tier': tier} for p in progs]
     # deep-copy protocol: IN ADDITION to the direct exploration (which stays complete), the same exploration on a deep copy of the converted
     # SuperNet; the moment of the copy rotates over the selected programs
@@ -198,7 +202,14 @@ def run_case(case, seed):
                 continue
             ok, why = tol.out_close(y, ye)
             if not ok:
-                add('output-differs', 'output-differs' + ('/winner-ends-in-functional-op' if fb else ''),
+                # D46 (listed): a WINNING user block with a statement-form in-place call (`h.relu_()`, result unused): the call is a node without
+                # users and export()'s dead-code elimination drops it.  Structural predicate (such a block wins) AND causal one (the exported
+                # graph has fewer in-place call_method nodes than the winning blocks contain)
+                n_inpl = sum(1 for b, w in zip(blocks, winners) if b['branches'][w] == 'inpl')
+                kept = sum(1 for nd in getattr(exp, 'graph', _NoGraph).nodes if nd.op == 'call_method' and str(nd.target) == 'relu_')
+                d46 = n_inpl > 0 and kept == 0
+                add('output-differs', 'output-differs' + ('/winner-ends-in-functional-op' if fb else '')
+                    + ('/winning-block-has-statement-form-inplace-op-dropped-by-export' if d46 else ''),
                     f'hard-selection SuperNet output vs exported: {why}', label)
             # module tree
             names = [n for n, _ in exp.named_modules()]
@@ -238,7 +249,11 @@ def run_case(case, seed):
                             f'block {blk}: exported graph still calls {[t for t, _ in stray][:4]} of the discarded branches {lk}, arg-max is {w} ({b["branches"][w]})', label)
                     if any(nd.op in ('call_module', 'get_attr') and str(nd.target) == cn[len('seed.'):] for nd in graph.nodes):
                         add('combiner-survives', 'combiner-survives/graph-node', f'exported graph still calls {cn}', label)
-                dangling = [nd.name for nd in graph.nodes if nd.op not in ('output', 'placeholder') and len(nd.users) == 0]
+                # (a statement-form in-place call such as `h.relu_()` legitimately has no users: it lives through the tensor it modifies)
+                def _inplace_stmt(nd):
+                    return (nd.op == 'call_method' and str(nd.target).endswith('_') and not str(nd.target).endswith('__') and len(nd.args) > 0
+                            and hasattr(nd.args[0], 'users') and len(nd.args[0].users) > 1)
+                dangling = [nd.name for nd in graph.nodes if nd.op not in ('output', 'placeholder') and len(nd.users) == 0 and not _inplace_stmt(nd)]
                 if dangling:
                     losers_fork = any(b['branches'][i] in FORK_KINDS for b, w in zip(blocks, winners) for i in range(len(b['branches'])) if i != w)
                     add('dangling-node-in-graph', 'dangling-node-in-graph' + ('/losing-branch-with-internal-fork' if losers_fork else ''),
